@@ -30,7 +30,7 @@ ASSUMPTIONS = [
     'message/data of library-generated errors (-32601, -32602) are compared with what the server put on the wire, not with a fixed text',
 ]
 SHARDS = {'quick': 4, 'thorough': 16}
-TIMEOUT = {'quick': 400, 'thorough': 2400}
+TIMEOUT = {'quick': 900, 'thorough': 3600}
 ANCHORS = [
     ('pjrpc/client/client.py', 'AbstractClient.call'), ('pjrpc/client/client.py', 'AbstractAsyncClient.call'),
     ('pjrpc/client/client.py', 'AbstractClient.notify'), ('pjrpc/client/client.py', 'AbstractAsyncClient.notify'),
